@@ -82,6 +82,7 @@ struct World {
 	size_t actPos = 0;
 	const Op* stickyOp = nullptr; size_t stickyPos = 0; unsigned stickyLeft = 0;   // a sticky relative request with y >= 64 repeats (y - 63) times, then the cursor moves on
 	bool quiet = false;        // callbacks take no action (replica construction, copies being destroyed ...)
+	bool mute = false;         // callbacks are not even recorded (the moved-from husk of a relocation is being destroyed)
 	bool hostile = false;      // replica: guards cancel and redirect
 	bool activating = false;   // inside constructor / enter()
 	uint32_t cbCount = 0, cbBudget = 0;
@@ -473,6 +474,7 @@ struct Runner {
 	struct Lg : FSM::Logger {
 		using Context = typename FSM::Logger::Context;
 		void recordMethod(const Context&, const ffsm2::StateID origin, const ffsm2::Method method) override {
+			if (W.mute) return;   // (the husk of a relocated automatic machine exits in its destructor and reports that to the logger it still points to)
 			Ev& e = pushEv(EV_LOG); e.method = LOG_METHOD; e.a = origin; e.b = static_cast<uint8_t>(method);
 		}
 		void recordTransition(const Context&, const ffsm2::StateID origin, const ffsm2::StateID target) override {
@@ -626,6 +628,7 @@ struct Runner {
 	template <class C>
 	static void cb(C& control, uint8_t state, uint8_t method, uint8_t who, bool thisOk, const void* evt, uint16_t local) {
 		constexpr uint8_t fl = flavour<C>();
+		if (W.mute) return;
 		if (++W.cbCount > W.cbBudget) {
 			W.tr->budgetAbort = true; W.tr->budgetState = state; W.tr->budgetMethod = method;
 			note(NOTE_BUDGET, state, method);
@@ -723,6 +726,19 @@ struct Runner {
 		if (kind == ACT_REQUEST_REL) { kind = ACT_REQUEST; reqDest = static_cast<uint8_t>((state == NOID ? 0 : state) + 1 + act.x % 3); }
 		const bool fwd = kind == ACT_REQUEST_FWD;   // payload handed over by reference to library-owned storage
 		if (fwd) kind = ACT_REQUEST;
+		if (kind == ACT_M_REQUEST) {
+			// a request through the machine object itself (users keep a pointer to it in the context): possible from every non-const callback,
+			// also from enter / exit / reenter whose control offers no changeTo()
+			if constexpr (fl == CTL_CONST) { ++W.tr->normalised; return; }
+			else {
+				Ev& a = pushEv(EV_ACT);
+				a.state = NOID; a.method = ACT_REQUEST; a.d = method; a.a = normState(act.x);
+				Instance& mm = *ptr(W.cur);
+				if constexpr (HAS_PAY) { a.c = act.pay; if (act.pay) mm.changeWith(a.a, makePay<Payload>(act.pay)); else mm.changeTo(a.a); }
+				else mm.changeTo(a.a);
+				return;
+			}
+		}
 		constexpr bool full = (fl == CTL_FULL || fl == CTL_GUARD);
 		// normalise to what this control offers
 		if (kind == ACT_CANCEL && fl != CTL_GUARD) kind = ACT_NONE;
@@ -1046,16 +1062,36 @@ struct Runner {
 			begin(inst, code, op.a, 0, 0);
 			const Ev pre = W.tr->ev[W.tr->n - 1];
 			uint32_t visited = 0; bool seqOk = true;
+			TaskV appended[2]; uint32_t nApp = 0, matchedApp = 0; unsigned removedSoFar = 0;
 			ok = guarded(inst, [&] {
 				auto p = m.plan();
 				unsigned pos = 0;
-				for (auto it = p.begin(); it && visited <= static_cast<uint32_t>(CAP); ++it, ++pos) {
-					if (visited < pre.planLen) { if (!(taskOf(*it) == W.tr->pool[pre.planOff + visited])) seqOk = false; } else seqOk = false;
+				for (auto it = p.begin(); it && visited <= static_cast<uint32_t>(CAP) + 2u; ++it, ++pos) {
+					if (visited < pre.planLen) { if (!(taskOf(*it) == W.tr->pool[pre.planOff + visited])) seqOk = false; }
+					else {
+						// beyond the tasks the plan held before: only tasks appended during this iteration, in their order
+						const TaskV tv = taskOf(*it);
+						while (matchedApp < nApp && !(appended[matchedApp] == tv)) ++matchedApp;
+						if (matchedApp >= nApp) seqOk = false; else ++matchedApp;
+					}
 					++visited;
-					if ((op.a >> (pos % 8)) & 1) it.remove();
+					if (pos < pre.planLen && ((op.a >> (pos % 8)) & 1)) {
+						it.remove();
+						note(NOTE_ITER_REMOVE, static_cast<uint8_t>(pos - removedSoFar)); ++removedSoFar;
+						if ((op.b & 1) && nApp == 0) {
+							// append while the iterator stands on the task it has just removed
+							for (int q = 0; q < 2; ++q) {
+								const uint8_t o = normState(static_cast<uint8_t>(op.b / 2 + q)), d = normState(static_cast<uint8_t>(op.a / 3 + q));
+								Ev& a = pushEv(EV_ACT); a.state = NOID; a.method = ACT_PLAN_APPEND; a.a = o; a.b = d; a.c = 0;
+								const bool r = p.change(o, d);
+								note(NOTE_APPEND_RESULT, r, o, d);
+								if (r) { TaskV tv; tv.origin = o; tv.dest = d; appended[nApp++] = tv; }
+							}
+						}
+					}
 				}
 			});
-			if (visited != pre.planLen) seqOk = false;
+			if (visited < pre.planLen) seqOk = false;   // every task the plan held before the iteration is visited, removals and appends notwithstanding
 			note(NOTE_ITER, seqOk, static_cast<uint8_t>(visited > 255 ? 255 : visited));
 			break; }
 		case OP_SUCCEED: case OP_FAIL:
@@ -1138,6 +1174,19 @@ struct Runner {
 				W.ctxOf[inst] = op.a;
 			} else { begin(inst, OP_OBSERVE, 0, 0, 0); code = OP_OBSERVE; }
 			break;
+		case OP_MOVE: {
+			begin(inst, code, 0, 0, 0);
+			alignas(64) static unsigned char tmp[sizeof(Instance) + 64];
+			void* const home = slots[inst].heap ? slots[inst].heap : static_cast<void*>(slots[inst].store);
+			ok = guarded(inst, [&] {
+				Instance* const t1 = new (tmp) Instance(static_cast<Instance&&>(*ptr(inst)));
+				W.mute = true; ptr(inst)->~Instance(); W.mute = false;             // the moved-from husk (an automatic machine exits in its destructor)
+				if (!slots[inst].heap) memset(slots[inst].store, 0xB7, sizeof slots[inst].store);
+				new (home) Instance(static_cast<Instance&&>(*t1));
+				W.mute = true; t1->~Instance(); W.mute = false;
+			});
+			W.mute = false;
+			break; }
 		case OP_RECONSTRUCT:
 			// two windows: the tear-down (bracketed like an op) and a construction window like the initial one
 			begin(inst, code, op.a, 0, 0);
@@ -1381,12 +1430,16 @@ template <int CFG, int I, int J> bool Inj<CFG, I, J, true>::thisOk() const {
 	if constexpr (I == HEAD_TAG) return this == static_cast<const Inj*>(&R::ptr(W.cur)->template access<Hd<CFG>>());
 	else return this == static_cast<const Inj*>(&R::ptr(W.cur)->template access<StT<CFG, I, 0>>());
 }
-template <int CFG, int I> bool StT<CFG, I, 0>::thisOk() const { return this == &Runner<CFG>::ptr(W.cur)->template access<StT<CFG, I, 0>>(); }
-template <int CFG, int I> bool StT<CFG, I, 2>::thisOk() const { return this == &Runner<CFG>::ptr(W.cur)->template access<StT<CFG, I, 2>>(); }
-template <int CFG, int I> bool StT<CFG, I, 3>::thisOk() const { return this == &Runner<CFG>::ptr(W.cur)->template access<StT<CFG, I, 3>>(); }
-template <int CFG> bool Hd<CFG>::thisOk() const {
-	return this == &Runner<CFG>::ptr(W.cur)->template access<Hd<CFG>>();
+// both overloads of access<T>() (const and non-const machine) must hand out the very object whose callback is running
+template <class T, class M> bool sameObject(const T* self, M& m) {
+	const M& cm = m;
+	const T& viaConst = cm.template access<T>();   // bound to a reference: if the overload returned a copy this would be a different object
+	return self == &m.template access<T>() && self == &viaConst;
 }
+template <int CFG, int I> bool StT<CFG, I, 0>::thisOk() const { return sameObject(this, *Runner<CFG>::ptr(W.cur)); }
+template <int CFG, int I> bool StT<CFG, I, 2>::thisOk() const { return sameObject(this, *Runner<CFG>::ptr(W.cur)); }
+template <int CFG, int I> bool StT<CFG, I, 3>::thisOk() const { return sameObject(this, *Runner<CFG>::ptr(W.cur)); }
+template <int CFG> bool Hd<CFG>::thisOk() const { return sameObject(this, *Runner<CFG>::ptr(W.cur)); }
 
 using RunFn = void (*)(const Case&, Trace&, const RunOpts&);
 extern RunFn g_zoo[ZOO_COUNT];
